@@ -580,31 +580,33 @@ Qed.
 Lemma ib_index_map_get l : forall s o, NoDup (map fst l) ->
   al_get outpoint_ltb o (ib_index_map s l) =
   match al_get outpoint_ltb o l with
-  | Some (Some _) => option_map (N.add s) (index_of outpoint_ltb o (map fst l))
+  | Some (Some h) => option_map (fun i => (h, s + i)) (index_of outpoint_ltb o (map fst l))
   | _ => None
   end.
 Proof.
   induction l as [|[o' x] t IH]; intros s o ND; [reflexivity|].
   inversion ND as [|? ? Ho' NDt]; subst. cbn [map fst index_of al_get].
   destruct x as [h|]; cbn [ib_index_map al_get]; destruct (eqb_of outpoint_ltb o' o) eqn:E.
-  - cbn [option_map]. f_equal. lia.
+  - cbn [option_map]. do 2 f_equal. lia.
   - rewrite (IH (s + 1) o NDt). destruct (al_get outpoint_ltb o t) as [[?|]|]; try reflexivity.
-    destruct (index_of outpoint_ltb o (map fst t)); cbn [option_map]; [f_equal; lia | reflexivity].
+    destruct (index_of outpoint_ltb o (map fst t)); cbn [option_map]; [do 2 f_equal; lia | reflexivity].
   - apply (eqb_of_true _ outpoint_st) in E. subst. apply ib_index_map_absent, Ho'.
   - rewrite (IH (s + 1) o NDt). destruct (al_get outpoint_ltb o t) as [[?|]|]; try reflexivity.
-    destruct (index_of outpoint_ltb o (map fst t)); cbn [option_map]; [f_equal; lia | reflexivity].
+    destruct (index_of outpoint_ltb o (map fst t)); cbn [option_map]; [do 2 f_equal; lia | reflexivity].
 Qed.
 
 Lemma ib_plutus_tag st r : In r (ib_plutus st) -> r_tag r = TSpend.
 Proof.
   unfold ib_plutus. rewrite in_flat_map. intros (hm & _ & H). rewrite in_flat_map in H. destruct H as (ow & _ & H).
   unfold ib_entry_redeemer in H. destruct (snd ow) as [[|rid]|]; try contradiction.
-  destruct (al_get outpoint_ltb (fst ow) _); [|contradiction]. destruct H as [<-|[]]. reflexivity.
+  destruct (al_get outpoint_ltb (fst ow) _) as [[h' i]|]; [|contradiction].
+  destruct (eqb_of bytes_ltb h' (fst hm)); [|contradiction]. destruct H as [<-|[]]. reflexivity.
 Qed.
 
+(* a redeemer is emitted exactly for a Plutus witness registered under the script hash the input is locked by now *)
 Lemma ib_plutus_spec st : ib_inv st -> forall r, In r (ib_plutus st) <->
-  r_tag r = TSpend /\ exists h o hh, wit2 st h o = Some (Some (WPlutus (r_data r))) /\
-    al_get outpoint_ltb o (ib_inputs st) = Some (Some hh) /\
+  r_tag r = TSpend /\ exists h o, wit2 st h o = Some (Some (WPlutus (r_data r))) /\
+    al_get outpoint_ltb o (ib_inputs st) = Some (Some h) /\
     index_of outpoint_ltb o (map fst (ib_inputs st)) = Some (r_index r).
 Proof.
   intros (S & ND & I) r.
@@ -616,26 +618,17 @@ Proof.
     rewrite (ib_index_map_get _ 0 o NDi) in Hr.
     destruct (al_get outpoint_ltb o (ib_inputs st)) as [[hh|]|] eqn:Ei; try contradiction.
     destruct (index_of outpoint_ltb o (map fst (ib_inputs st))) as [i|] eqn:Ex; cbn [option_map] in Hr; [|contradiction].
-    destruct Hr as [<-|[]]. cbn [r_data r_index]. exists h, o, hh. split; [|split; [exact Ei | rewrite Ex; f_equal; lia]].
+    destruct (eqb_of bytes_ltb hh h) eqn:Eh; [|contradiction]. apply (eqb_of_true _ bytes_strict_total) in Eh. subst hh.
+    destruct Hr as [<-|[]]. cbn [r_data r_index]. exists h, o. split; [|split; [exact Ei | rewrite Ex; reflexivity]].
     unfold wit2. rewrite (al_get_nodup bytes_ltb bytes_strict_total h inner _ ND Hh).
     apply (al_get_nodup outpoint_ltb outpoint_st); [eapply I, Hh | exact Ho].
-  - intros (Ht & h & o & hh & Hw & Hi & Hx). unfold wit2 in Hw.
+  - intros (Ht & h & o & Hw & Hi & Hx). unfold wit2 in Hw.
     destruct (al_get bytes_ltb h (ib_scripts st)) as [inner|] eqn:Eh; [|discriminate].
     apply (al_get_In bytes_ltb bytes_strict_total) in Eh. apply (al_get_In outpoint_ltb outpoint_st) in Hw.
     unfold ib_plutus. rewrite in_flat_map. exists (h, inner). split; [exact Eh|]. rewrite in_flat_map.
     exists (o, Some (WPlutus (r_data r))). split; [exact Hw|]. unfold ib_entry_redeemer. cbn [fst snd].
-    rewrite (ib_index_map_get _ 0 o NDi), Hi, Hx. cbn [option_map]. left.
+    rewrite (ib_index_map_get _ 0 o NDi), Hi, Hx. cbn [option_map]. rewrite (eqb_of_refl _ bytes_strict_total). left.
     destruct r as [t i d]. cbn [r_tag r_index r_data] in *. subst t. reflexivity.
-Qed.
-
-Lemma ib_stale_false st : ib_stale st = false ->
-  forall h inner o rid hh, In (h, inner) (ib_scripts st) -> In (o, Some (WPlutus rid)) inner ->
-    al_get outpoint_ltb o (ib_inputs st) = Some (Some hh) -> hh = h.
-Proof.
-  intros Hs h inner o rid hh Hh Ho Hi. destruct (eqb_of bytes_ltb hh h) eqn:E; [apply (eqb_of_true _ bytes_strict_total); exact E|].
-  exfalso. assert (X : ib_stale st = true); [|congruence].
-  unfold ib_stale. apply existsb_exists. exists (h, inner). split; [exact Hh|]. apply existsb_exists.
-  exists (o, Some (WPlutus rid)). split; [exact Ho|]. cbn [fst snd]. rewrite Hi, E. reflexivity.
 Qed.
 
 Lemma spend_field ops : let st := fold_left ib_step ops ib_empty in
@@ -651,24 +644,19 @@ Proof.
 Qed.
 
 Lemma spend_pointers ops : let st := fold_left ib_step ops ib_empty in
-  ib_stale st = false ->
   spec_pointers TSpend (spend_wits (spend_final ops)) (fun k => ledger_set_index outpoint_ledger_ltb k (ib_body st)) (ib_plutus st).
 Proof.
-  cbv zeta. intros Hs. destruct (spend_refine ops) as (I & B & D). set (st := fold_left ib_step ops ib_empty) in *.
+  cbv zeta. destruct (spend_refine ops) as (I & B & D). set (st := fold_left ib_step ops ib_empty) in *.
   pose proof I as (S & ND & Iin).
   intros r Ht. rewrite (ib_plutus_spec st I). unfold ledger_set_index. rewrite <- outpoint_code_ledger. unfold ib_body.
   rewrite (sset_sort_of_sorted outpoint_ltb outpoint_st _ S). unfold spend_wits.
   split.
-  - intros (_ & h & o & hh & Hw & Hi & Hx). exists o, (r_data r). split; [|split; [exact Hx | reflexivity]].
-    assert (hh = h) as ->.
-    { unfold wit2 in Hw. destruct (al_get bytes_ltb h (ib_scripts st)) as [inner|] eqn:Eh; [|discriminate].
-      apply (al_get_In bytes_ltb bytes_strict_total) in Eh. apply (al_get_In outpoint_ltb outpoint_st) in Hw.
-      eapply ib_stale_false; eassumption. }
+  - intros (_ & h & o & Hw & Hi & Hx). exists o, (r_data r). split; [|split; [exact Hx | reflexivity]].
     rewrite B in Hi. destruct (spend_final ops o) as [[[h' w']|]|] eqn:F; cbn in Hi; try discriminate.
     injection Hi as ->. rewrite (D _ _ _ F) in Hw. injection Hw as ->. reflexivity.
   - intros (o & rid & Hf & Hx & Hd). subst rid. split; [exact Ht|].
     destruct (spend_final ops o) as [[[h w]|]|] eqn:F; cbn in Hf; try discriminate. injection Hf as ->.
-    exists h, o, h. split; [apply (D _ _ _ F)|]. split; [rewrite B, F; reflexivity | exact Hx].
+    exists h, o. split; [apply (D _ _ _ F)|]. split; [rewrite B, F; reflexivity | exact Hx].
 Qed.
 
 Lemma spend_locked_ok ops : spec_locked (spend_wits (spend_final ops)) (spend_locked (spend_wits (spend_final ops))).
@@ -756,16 +744,16 @@ Proof. unfold known_collateral_plutus. destruct (ib_plutus _); [reflexivity | di
 
 (* ---- one theorem per purpose ---- *)
 Theorem c10_spend ops st flags b : run ops = (st, flags) -> tx_build st = Ok b ->
-  known_collateral_plutus ops = false -> known_stale_spend ops = false ->
+  known_collateral_plutus ops = false ->
   let sf := spend_wits (spend_final (ops_in ops)) in
   spec_field sf (b_inputs b) /\
   spec_pointers TSpend sf (fun k => ledger_set_index outpoint_ledger_ltb k (b_inputs b)) (b_redeemers b) /\
   spec_locked sf (spend_locked sf).
 Proof.
-  intros Hr Hb K1 K3. cbv zeta. destruct (run_components _ _ _ Hr) as (Ei & _). destruct (build_fields _ _ Hb) as (-> & _ & _ & _ & _ & _ & _ & ->).
-  pose proof (collateral_silent _ K1) as Hc. unfold known_stale_spend in K3. rewrite Hr in Hc, K3. cbn [fst] in Hc, K3.
+  intros Hr Hb K1. cbv zeta. destruct (run_components _ _ _ Hr) as (Ei & _). destruct (build_fields _ _ Hb) as (-> & _ & _ & _ & _ & _ & _ & ->).
+  pose proof (collateral_silent _ K1) as Hc. rewrite Hr in Hc. cbn [fst] in Hc.
   rewrite Ei in *. split; [apply spend_field|]. split; [|apply spend_locked_ok].
-  eapply spec_pointers_same; [|apply spend_pointers, K3].
+  eapply spec_pointers_same; [|apply spend_pointers].
   intros r Ht. rewrite tx_redeemers_tag, Ht, Hc, Ei. cbn [In]. tauto.
 Qed.
 
@@ -836,11 +824,11 @@ Proof.
 Qed.
 
 Theorem c10_unique ops st flags b : run ops = (st, flags) -> tx_build st = Ok b ->
-  known_collateral_plutus ops = false -> known_stale_spend ops = false ->
+  known_collateral_plutus ops = false ->
   spec_unique (b_redeemers b).
 Proof.
-  intros Hr Hb K1 K3 r1 r2 H1 H2 Et Ei.
-  destruct (c10_spend _ _ _ _ Hr Hb K1 K3) as (_ & Ps & _). destruct (c10_mint _ _ _ _ Hr Hb) as (_ & Pm).
+  intros Hr Hb K1 r1 r2 H1 H2 Et Ei.
+  destruct (c10_spend _ _ _ _ Hr Hb K1) as (_ & Ps & _). destruct (c10_mint _ _ _ _ Hr Hb) as (_ & Pm).
   destruct (c10_cert _ _ _ _ Hr Hb) as (_ & Pc & _). destruct (c10_reward _ _ _ _ Hr Hb) as (_ & Pw & _).
   destruct (c10_vote _ _ _ _ Hr Hb) as (_ & Pv & _). destruct (c10_propose _ _ _ _ Hr Hb) as (_ & Pp & _).
   destruct (r_tag r1) eqn:T1; symmetry in Et.
@@ -854,15 +842,15 @@ Qed.
 
 (* ---- the full statement ---- *)
 Theorem c10_statement_holds ops st flags b : run ops = (st, flags) -> tx_build st = Ok b ->
-  known_collateral_plutus ops = false -> known_stale_spend ops = false -> known_prop_nonscript ops = false ->
+  known_collateral_plutus ops = false -> known_prop_nonscript ops = false ->
   C10_statement ops b.
 Proof.
-  intros Hr Hb K1 K3 K2. unfold C10_statement. cbv zeta.
-  destruct (c10_spend _ _ _ _ Hr Hb K1 K3) as (A1 & A2 & A3). destruct (c10_mint _ _ _ _ Hr Hb) as (B1 & B2).
+  intros Hr Hb K1 K2. unfold C10_statement. cbv zeta.
+  destruct (c10_spend _ _ _ _ Hr Hb K1) as (A1 & A2 & A3). destruct (c10_mint _ _ _ _ Hr Hb) as (B1 & B2).
   destruct (c10_cert _ _ _ _ Hr Hb) as (C1 & C2 & C3). destruct (c10_reward _ _ _ _ Hr Hb) as (D1 & D2 & D3).
   destruct (c10_vote _ _ _ _ Hr Hb) as (E1 & E2 & E3). destruct (c10_propose _ _ _ _ Hr Hb) as (F1 & F2 & F3).
   exact (conj (conj A1 (conj A2 A3)) (conj (conj B1 B2) (conj (conj C1 (conj C2 C3)) (conj (conj D1 (conj D2 D3))
-         (conj (conj E1 (conj E2 E3)) (conj (conj F1 (conj F2 (F3 K2))) (c10_unique _ _ _ _ Hr Hb K1 K3))))))).
+         (conj (conj E1 (conj E2 E3)) (conj (conj F1 (conj F2 (F3 K2))) (c10_unique _ _ _ _ Hr Hb K1))))))).
 Qed.
 
 (* ======================== the order of the calls does not matter ======================== *)
@@ -962,18 +950,17 @@ Qed.
 Theorem c10_order_irrelevant ops ops' st flags b st' flags' b' :
   Permutation ops ops' -> distinct_items ops ->
   run ops = (st, flags) -> tx_build st = Ok b -> run ops' = (st', flags') -> tx_build st' = Ok b' ->
-  known_collateral_plutus ops = false -> known_stale_spend ops = false ->
-  known_collateral_plutus ops' = false -> known_stale_spend ops' = false ->
+  known_collateral_plutus ops = false -> known_collateral_plutus ops' = false ->
   forall r, r_tag r <> TCert -> (In r (b_redeemers b) <-> In r (b_redeemers b')).
 Proof.
-  intros P (Di & Dm & _ & Dw & Dv & Dp) Hr Hb Hr' Hb' K1 K3 K1' K3' r Hnc.
+  intros P (Di & Dm & _ & Dw & Dv & Dp) Hr Hb Hr' Hb' K1 K1' r Hnc.
   assert (Pin : Permutation (ops_in ops) (ops_in ops')) by (apply Permutation_flat_map, P).
   assert (Pm : Permutation (ops_mint ops) (ops_mint ops')) by (apply Permutation_flat_map, P).
   assert (Pw : Permutation (ops_wd ops) (ops_wd ops')) by (apply Permutation_flat_map, P).
   assert (Pv : Permutation (ops_vote ops) (ops_vote ops')) by (apply Permutation_flat_map, P).
   assert (Pp : Permutation (ops_prop ops) (ops_prop ops')) by (apply Permutation_flat_map, P).
   destruct (r_tag r) eqn:Ht; [| | congruence | | |].
-  - destruct (c10_spend _ _ _ _ Hr Hb K1 K3) as (F1 & P1 & _). destruct (c10_spend _ _ _ _ Hr' Hb' K1' K3') as (F2 & P2 & _).
+  - destruct (c10_spend _ _ _ _ Hr Hb K1) as (F1 & P1 & _). destruct (c10_spend _ _ _ _ Hr' Hb' K1') as (F2 & P2 & _).
     assert (E : forall k, spend_wits (spend_final (ops_in ops)) k = spend_wits (spend_final (ops_in ops')) k).
     { intros k. unfold spend_wits, spend_final. rewrite (final_last_perm _ _ _ _ (eqb_of_true _ outpoint_st) _ _ Di Pin). reflexivity. }
     apply (pointers_transfer TSpend _ _ _ _ _ _ P1 P2 E); [|exact Ht].
@@ -1020,23 +1007,24 @@ Definition w_stale_ops : list op := [OpCol (InKey w_oc); OpIn (InKey w_of); OpIn
 Definition w_prop_ops : list op := [OpCol (InKey w_oc); OpIn (InKey w_of); OpProp (WAddPlutus (mkProp 6 None 5) 7)].
 
 Theorem unique_refuted_collateral :
-  known_collateral_plutus w_collateral_ops = true /\ known_stale_spend w_collateral_ops = false /\
+  known_collateral_plutus w_collateral_ops = true /\
   exists st flags b, run w_collateral_ops = (st, flags) /\ tx_build st = Ok b /\ ~ spec_unique (b_redeemers b).
 Proof.
-  split; [vm_compute; reflexivity|]. split; [vm_compute; reflexivity|].
+  split; [vm_compute; reflexivity|].
   eexists. eexists. eexists. split; [vm_compute; reflexivity|]. split; [vm_compute; reflexivity|].
   intros U. specialize (U (mkR TSpend 0 1) (mkR TSpend 0 2)). cbn in U.
   assert (X : mkR TSpend 0 1 = mkR TSpend 0 2) by (apply U; auto). discriminate.
 Qed.
 
-Theorem unique_refuted_stale :
-  known_stale_spend w_stale_ops = true /\ known_collateral_plutus w_stale_ops = false /\
-  exists st flags b, run w_stale_ops = (st, flags) /\ tx_build st = Ok b /\ ~ spec_unique (b_redeemers b).
+(* before the repair ae86092 both witnesses of the re-added input were emitted, with the same pointer; now only the current one *)
+Theorem stale_legacy_refuted :
+  let st := fold_left ib_step (ops_in w_stale_ops) ib_empty in
+  ib_plutus_legacy st = [mkR TSpend 0 1; mkR TSpend 0 2] /\ ~ spec_unique (ib_plutus_legacy st) /\
+  ib_plutus st = [mkR TSpend 0 2].
 Proof.
-  split; [vm_compute; reflexivity|]. split; [vm_compute; reflexivity|].
-  eexists. eexists. eexists. split; [vm_compute; reflexivity|]. split; [vm_compute; reflexivity|].
-  intros U. specialize (U (mkR TSpend 0 1) (mkR TSpend 0 2)). cbn in U.
-  assert (X : mkR TSpend 0 1 = mkR TSpend 0 2) by (apply U; auto). discriminate.
+  cbv zeta. split; [vm_compute; reflexivity|]. split; [|vm_compute; reflexivity].
+  intros U. specialize (U (mkR TSpend 0 1) (mkR TSpend 0 2)).
+  assert (X : mkR TSpend 0 1 = mkR TSpend 0 2) by (apply U; vm_compute; auto). discriminate.
 Qed.
 
 Theorem locked_refuted_proposal :
@@ -1106,12 +1094,12 @@ Definition ex_ops : list op :=
     OpProp (WAdd (mkProp 6 None 1)); OpProp (WAddPlutus (mkProp 2 (Some [5]) 2) 111); OpProp (WAddPlutus (mkProp 0 (Some [6]) 3) 112) ].
 
 Example c10_premises_satisfiable :
-  known_collateral_plutus ex_ops = false /\ known_stale_spend ex_ops = false /\ known_prop_nonscript ex_ops = false /\
+  known_collateral_plutus ex_ops = false /\ known_prop_nonscript ex_ops = false /\
   exists st flags b, run ex_ops = (st, flags) /\ tx_build st = Ok b /\
     b_redeemers b = [ mkR TSpend 2 101; mkR TSpend 0 102; mkR TMint 0 104; mkR TMint 2 103; mkR TCert 1 105; mkR TCert 3 106;
                       mkR TReward 0 108; mkR TReward 1 107; mkR TVote 0 110; mkR TVote 1 109; mkR TPropose 0 112; mkR TPropose 1 111 ].
 Proof.
-  split; [vm_compute; reflexivity|]. split; [vm_compute; reflexivity|]. split; [vm_compute; reflexivity|].
+  split; [vm_compute; reflexivity|]. split; [vm_compute; reflexivity|].
   eexists. eexists. eexists. split; [vm_compute; reflexivity|]. split; [vm_compute; reflexivity|]. vm_compute. reflexivity.
 Qed.
 
@@ -1244,86 +1232,172 @@ Proof.
 Qed.
 
 (* a known-finding verdict is only given inside the corresponding class *)
-Lemma verdict_of_known a s p k1 k3 k2 c : verdict_of a s p k1 k3 k2 = FailsKnown c ->
-  (c = 1 /\ k1 = true) \/ (c = 3 /\ k1 = false /\ k3 = true) \/ (c = 2 /\ k2 = true).
-Proof. unfold verdict_of. destruct a, s, p, k1, k3, k2; cbn; intros H; try discriminate; injection H as <-; auto. Qed.
+Lemma verdict_of_known a s p k1 k2 c : verdict_of a s p k1 k2 = FailsKnown c ->
+  (c = 1 /\ k1 = true) \/ (c = 2 /\ k2 = true).
+Proof. unfold verdict_of. destruct a, s, p, k1, k2; cbn; intros H; try discriminate; injection H as <-; auto. Qed.
 
 Theorem judge_known_narrow ops b c : judge ops b = FailsKnown c ->
-  (c = 1 /\ known_collateral_plutus ops = true) \/ (c = 3 /\ known_collateral_plutus ops = false /\ known_stale_spend ops = true)
-  \/ (c = 2 /\ known_prop_nonscript ops = true).
+  (c = 1 /\ known_collateral_plutus ops = true) \/ (c = 2 /\ known_prop_nonscript ops = true).
 Proof. unfold judge. cbv zeta. apply verdict_of_known. Qed.
 
-(* ======================== for pairwise distinct inputs the stale-witness class is empty ======================== *)
-Lemma NoDup_map_eq {A B} (f : A -> B) (l : list A) a b : NoDup (map f l) -> In a l -> In b l -> f a = f b -> a = b.
+
+(* ======================== the known classes, characterised on the call list ======================== *)
+(* K1: some collateral input's LAST registration is add_plutus_script_input *)
+Theorem known_collateral_plutus_iff ops :
+  known_collateral_plutus ops = true <-> exists o h rid, spend_final (ops_col ops) o = Some (Some (h, WPlutus rid)).
 Proof.
-  induction l as [|x t IH]; [contradiction|]. cbn [map]. intros ND Ha Hb E. inversion ND as [|? ? Hx NDt]; subst.
-  destruct Ha as [->|Ha], Hb as [->|Hb]; [reflexivity | | | apply IH; assumption].
-  - exfalso. apply Hx. rewrite E. apply in_map, Hb.
-  - exfalso. apply Hx. rewrite <- E. apply in_map, Ha.
+  unfold known_collateral_plutus. rewrite run_state, proj_collateral. cbn [t_collateral txb_empty].
+  pose proof (spend_pointers (ops_col ops)) as P. pose proof (spend_field (ops_col ops)) as F. cbv zeta in P, F.
+  set (st := fold_left ib_step (ops_col ops) ib_empty) in *. split.
+  - intros H. assert (exists r, In r (ib_plutus st)) as [r Hin].
+    { revert H. generalize (ib_plutus st). intros [|r t]; [discriminate|]. intros _. exists r. left; reflexivity. }
+    pose proof (ib_plutus_tag _ _ Hin) as Ht. apply (P r Ht) in Hin as (o & rid & Hf & _ & _).
+    unfold spend_wits in Hf. destruct (spend_final (ops_col ops) o) as [[[h w]|]|] eqn:Fo; cbn in Hf; try discriminate.
+    injection Hf as ->. exists o, h, rid. exact Fo.
+  - intros (o & h & rid & Hf).
+    assert (Hw : spend_wits (spend_final (ops_col ops)) o = Some (Some (WPlutus rid))) by (unfold spend_wits; rewrite Hf; reflexivity).
+    assert (Hb : In o (ib_body st)) by (apply F; rewrite Hw; discriminate).
+    destruct (index_of_some outpoint_ledger_ltb (eq_ind _ _ outpoint_st _ outpoint_code_ledger) o (sset_sort outpoint_ledger_ltb (ib_body st))) as [i Hi].
+    { apply (sset_sort_In outpoint_ledger_ltb (eq_ind _ _ outpoint_st _ outpoint_code_ledger)). exact Hb. }
+    assert (Hin : In (mkR TSpend i rid) (ib_plutus st)).
+    { apply (P (mkR TSpend i rid) eq_refl). exists o, rid. unfold ledger_set_index. auto. }
+    revert Hin. generalize (ib_plutus st). intros [|x t]; [contradiction | reflexivity].
 Qed.
 
-Definition scripts_from (st : ibuilder) (ops : list in_op) : Prop :=
-  forall h inner o w, In (h, inner) (ib_scripts st) -> In (o, w) inner ->
-    exists op w', In op ops /\ in_op_key op = o /\ in_op_val op = Some (h, w').
-
-Lemma scripts_from_set_wit h o w st ops :
-  scripts_from st ops -> (exists op w', In op ops /\ in_op_key op = o /\ in_op_val op = Some (h, w')) ->
-  scripts_from (ib_set_wit h o w st) ops.
+(* K2: some proposal without policy hash whose last accepted call is add_with_plutus_witness *)
+Theorem known_prop_nonscript_iff ops :
+  known_prop_nonscript ops = true <->
+  exists p rid, prop_final (ops_prop ops) p = Some (Some (WPlutus rid)) /\ prop_has_script_hash p = false.
 Proof.
-  intros P Hop h' inner' o' w' Hin Hin'. unfold ib_set_wit in Hin. cbn [ib_scripts] in Hin.
-  apply lm_insert_In in Hin as [E|Hin]; [|eapply P; eassumption].
-  injection E as -> ->. apply lm_insert_In in Hin' as [E|Hin'].
-  - injection E as -> ->. exact Hop.
-  - destruct (al_get bytes_ltb h (ib_scripts st)) as [m|] eqn:Em; [|contradiction].
-    apply (al_get_In bytes_ltb bytes_strict_total) in Em. eapply P; eassumption.
+  unfold known_prop_nonscript. rewrite run_state, proj_props. cbn [t_props txb_empty].
+  destruct (prop_refine (ops_prop ops)) as [S G]. set (st := fold_left prop_apply (ops_prop ops) []) in *.
+  assert (ND : NoDup (map fst st)) by (apply sortedk_nodup with (ltb := prop_rust_ltb); [apply prop_st | exact S]).
+  rewrite existsb_exists. split.
+  - intros ([p w] & Hin & H). cbn [fst snd] in H. destruct w as [[|rid]|]; cbn [plutus_rid] in H; try discriminate.
+    exists p, rid. split; [rewrite <- G; apply (al_get_nodup prop_rust_ltb prop_st); assumption | apply negb_true_iff, H].
+  - intros (p & rid & Hf & Hs). rewrite <- G in Hf. apply (al_get_In prop_rust_ltb prop_st) in Hf.
+    exists (p, Some (WPlutus rid)). split; [exact Hf|]. cbn. rewrite Hs. reflexivity.
 Qed.
 
-Lemma scripts_from_run ops : scripts_from (fold_left ib_step ops ib_empty) ops.
+(* ======================== the judge is complete: it accepts what the model builds outside the known classes ======================== *)
+Section JudgeComplete.
+  Context {K : Type} (ltb : K -> K -> bool) (ST : strict_total ltb).
+  Variables (T : tag) (keys : list K) (final : K -> option (option wit)) (ix : K -> option N)
+            (field : list K) (locked : K -> bool) (R : list redeemer).
+  Hypothesis support : forall k, final k <> None -> In k keys.
+  Hypothesis ix_total : forall k, In k field -> exists i, ix k = Some i.
+
+  Lemma j_field_complete : spec_field final field -> j_field (eqb_of ltb) keys final field = true.
+  Proof.
+    intros F. unfold j_field. apply andb_true_intro. split; apply forallb_forall; intros k Hk.
+    - destruct (final k) eqn:E.
+      + assert (Hin : In k field) by (apply F; congruence). apply (existsb_eqb_In ltb ST) in Hin. rewrite Hin. reflexivity.
+      + destruct (existsb (eqb_of ltb k) field) eqn:X; [|reflexivity]. apply (existsb_eqb_In ltb ST) in X. apply F in X. congruence.
+    - apply (existsb_eqb_In ltb ST). apply support, F, Hk.
+  Qed.
+
+  Lemma j_present_complete : spec_field final field -> spec_pointers T final ix R -> j_present T keys final ix R = true.
+  Proof.
+    intros F P. unfold j_present. apply forallb_forall. intros [k rid] Ha. cbn [fst snd].
+    apply attachments_In in Ha as [_ Hf].
+    destruct (ix_total k) as [i Hi]; [apply F; congruence|]. rewrite Hi.
+    apply existsb_exists. exists (mkR T i rid). split; [|apply red_eqb_true; reflexivity].
+    apply (P (mkR T i rid) eq_refl). exists k, rid. auto.
+  Qed.
+
+  Lemma j_expected_complete : spec_pointers T final ix R -> j_expected T keys final ix R = true.
+  Proof.
+    intros P. unfold j_expected. apply forallb_forall. intros r Hin.
+    destruct (tag_code (r_tag r) =? tag_code T) eqn:E; [|reflexivity]. cbn [negb orb].
+    apply N.eqb_eq, tag_code_inj in E. apply (P r E) in Hin as (k & rid & Hf & Hi & Hd).
+    apply existsb_exists. exists (k, rid). split.
+    - apply attachments_In. split; [apply support; congruence | exact Hf].
+    - cbn [fst snd]. rewrite Hi, Hd, !N.eqb_refl. reflexivity.
+  Qed.
+
+  Lemma j_locked_complete : spec_locked final locked -> j_locked keys final locked = true.
+  Proof.
+    intros L. unfold j_locked. apply forallb_forall. intros [k rid] Ha. cbn [fst]. apply attachments_In in Ha as [_ Hf]. eapply L, Hf.
+  Qed.
+End JudgeComplete.
+
+Lemma dedup_first_NoDup l : NoDup (dedup_first l).
 Proof.
-  induction ops as [|op ops IH] using rev_ind; [intros ? ? ? ? []|].
-  rewrite fold_left_app. cbn [fold_left].
-  assert (Hw : scripts_from (fold_left ib_step ops ib_empty) (ops ++ [op])).
-  { intros h inner o w H1 H2. destruct (IH _ _ _ _ H1 H2) as (op' & w' & Hin & R). exists op', w'. rewrite in_app_iff. auto. }
-  destruct op as [o|h o|h o rid]; cbn [ib_step].
-  - exact Hw.
-  - unfold ib_add_script. apply scripts_from_set_wit; [apply scripts_from_set_wit; [exact Hw|]|];
-      exists (InNative h o), WNative; rewrite in_app_iff; cbn; auto.
-  - unfold ib_add_script. apply scripts_from_set_wit; [apply scripts_from_set_wit; [exact Hw|]|];
-      exists (InPlutus h o rid), (WPlutus rid); rewrite in_app_iff; cbn; auto.
+  induction l as [|a t IH]; cbn [dedup_first]; constructor.
+  - rewrite filter_In. intros [_ H]. rewrite (proj2 (red_eqb_true a a) eq_refl) in H. discriminate.
+  - apply NoDup_filter, IH.
 Qed.
 
-Lemma distinct_inputs_no_stale ops : NoDup (map in_op_key ops) -> ib_stale (fold_left ib_step ops ib_empty) = false.
+Lemma j_unique_complete R : NoDup R ->
+  (forall r1 r2, In r1 R -> In r2 R -> r_tag r1 = r_tag r2 -> r_index r1 = r_index r2 -> r1 = r2) -> j_unique R = true.
 Proof.
-  intros ND. destruct (ib_stale (fold_left ib_step ops ib_empty)) eqn:S; [|reflexivity]. exfalso.
-  destruct (spend_refine ops) as (_ & B & _). pose proof (scripts_from_run ops) as P.
-  set (st := fold_left ib_step ops ib_empty) in *.
-  unfold ib_stale in S. apply existsb_exists in S as ([h inner] & Hh & S). apply existsb_exists in S as ([o w] & Ho & S).
-  cbn [fst snd] in S. destruct w as [[|rid]|]; try discriminate.
-  destruct (al_get outpoint_ltb o (ib_inputs st)) as [[h'|]|] eqn:Ei; try discriminate.
-  apply negb_true_iff, (eqb_of_false _ bytes_strict_total) in S.
-  destruct (P _ _ _ _ Hh Ho) as (op1 & w1 & In1 & K1 & V1).
-  rewrite B in Ei. destruct (spend_final ops o) as [[[h2 w2]|]|] eqn:F; cbn in Ei; try discriminate. injection Ei as ->.
-  apply final_last_origin in F; [|intros x y E; apply (eqb_of_true _ outpoint_st), E]. destruct F as (op2 & In2 & _ & K2 & V2).
-  assert (op1 = op2) by (eapply NoDup_map_eq; [exact ND | assumption | assumption | congruence]). subst op2.
-  rewrite V1 in V2. injection V2 as -> _. apply S. reflexivity.
+  induction 1 as [|a t Ha ND IH]; intros U; [reflexivity|]. cbn [j_unique]. apply andb_true_intro. split.
+  - apply negb_true_iff. destruct (existsb (ptr_eqb a) t) eqn:E; [|reflexivity]. exfalso.
+    apply existsb_exists in E as (r & Hr & Hp). apply ptr_eqb_true in Hp as [Et Ei].
+    assert (a = r) by (apply U; cbn; auto). subst. contradiction.
+  - apply IH. intros r1 r2 H1 H2. apply U; cbn; auto.
 Qed.
 
-Theorem distinct_items_no_stale ops : distinct_items ops -> known_stale_spend ops = false.
-Proof.
-  intros (Di & _). unfold known_stale_spend. rewrite run_state, proj_inputs. apply distinct_inputs_no_stale, Di.
-Qed.
+Lemma verdict_of_holds k1 k2 : verdict_of true true true k1 k2 = Holds.
+Proof. reflexivity. Qed.
 
-(* the order theorem for SETS of items: the stale-witness class cannot occur, on either side *)
-Theorem c10_order_irrelevant_sets ops ops' st flags b st' flags' b' :
-  Permutation ops ops' -> distinct_items ops ->
-  run ops = (st, flags) -> tx_build st = Ok b -> run ops' = (st', flags') -> tx_build st' = Ok b' ->
-  known_collateral_plutus ops = false -> known_collateral_plutus ops' = false ->
-  forall r, r_tag r <> TCert -> (In r (b_redeemers b) <-> In r (b_redeemers b')).
+Opaque j_field j_present j_expected j_locked j_unique.
+Theorem judge_complete ops st flags b : run ops = (st, flags) -> tx_build st = Ok b ->
+  known_collateral_plutus ops = false -> known_prop_nonscript ops = false -> judge ops b = Holds.
 Proof.
-  intros P D Hr Hb Hr' Hb' K1 K1'.
-  assert (K3 : known_stale_spend ops = false) by (apply distinct_items_no_stale, D).
-  assert (K3' : known_stale_spend ops' = false).
-  { unfold known_stale_spend. rewrite run_state, proj_inputs. apply distinct_inputs_no_stale. destruct D as (Di & _).
-    eapply Permutation_NoDup; [apply Permutation_map, Permutation_flat_map, P | exact Di]. }
-  eapply c10_order_irrelevant; eassumption.
+  intros Hr Hb K1 K2. pose proof (c10_statement_holds _ _ _ _ Hr Hb K1 K2) as C.
+  unfold C10_statement in C. cbv zeta in C.
+  destruct C as ((A1 & A2 & A3) & (B1 & B2) & (C1 & C2 & C3) & (D1 & D2 & D3) & (E1 & E2 & E3) & (F1 & F2 & F3) & U).
+  assert (NDR : NoDup (b_redeemers b)).
+  { destruct (build_fields _ _ Hb) as (_ & _ & _ & _ & _ & _ & _ & ->). apply dedup_first_NoDup. }
+  assert (Ss : forall k, spend_wits (spend_final (ops_in ops)) k <> None -> In k (map in_op_key (ops_in ops))).
+  { intros k Hk. apply (final_last_support (eqb_of outpoint_ltb) in_op_key in_op_val (fun _ => true)); [intros x y E; apply (eqb_of_true _ outpoint_st), E|].
+    unfold spend_wits, spend_final in Hk. intros E. rewrite E in Hk. apply Hk. reflexivity. }
+  assert (Sm : forall k, mint_wits (mint_final (ops_mint ops)) k <> None -> In k (map mo_policy (ops_mint ops))).
+  { intros k Hk. apply (final_first_support (eqb_of bytes_ltb) mo_policy mo_wit (fun o => negb (mo_zero o))); [intros x y E; apply (eqb_of_true _ bytes_strict_total), E|].
+    unfold mint_wits, mint_final in Hk. intros E. rewrite E in Hk. apply Hk. reflexivity. }
+  assert (Sc : forall k, cert_final (ops_cert ops) k <> None -> In k (map wop_key (ops_cert ops))).
+  { apply final_first_support. intros x y E; apply (eqb_of_true _ cert_st), E. }
+  assert (Sw : forall k, wd_final (ops_wd ops) k <> None -> In k (map wop_key (ops_wd ops))).
+  { apply final_last_support. intros x y E; apply (eqb_of_true _ racct_ledger_st), E. }
+  assert (Sv : forall k, vote_final (ops_vote ops) k <> None -> In k (map wop_key (ops_vote ops))).
+  { apply final_first_support. intros x y E; apply (eqb_of_true _ voter_ledger_st), E. }
+  assert (Sp : forall k, prop_final (ops_prop ops) k <> None -> In k (map wop_key (ops_prop ops))).
+  { apply final_last_support. intros x y E; apply (eqb_of_true _ prop_st), E. }
+  assert (Iset : forall {K} (l : K -> K -> bool), strict_total l -> forall fld k, In k fld -> exists i, ledger_set_index l k fld = Some i).
+  { intros K0 l S0 fld k Hin. apply (index_of_some l S0). apply (sset_sort_In l S0). exact Hin. }
+  assert (Iseq : forall {K} (l : K -> K -> bool), strict_total l -> forall fld k, In k fld -> exists i, ledger_seq_index l k fld = Some i).
+  { intros K0 l S0 fld k Hin. apply (index_of_some l S0). exact Hin. }
+  pose proof (eq_ind _ _ outpoint_st _ outpoint_code_ledger) as outpoint_ledger_st.
+  unfold judge. cbv zeta.
+  match goal with |- verdict_of ?c ?s ?p _ _ = _ => assert (Hc : c = true); [| assert (Hs : s = true); [| assert (Hp : p = true)]] end.
+  - repeat (apply andb_true_intro; split).
+    + eapply (j_field_complete _ outpoint_st); eassumption.
+    + eapply (j_present_complete TSpend); try eassumption. apply (Iset _ _ outpoint_ledger_st).
+    + eapply j_locked_complete; eassumption.
+    + eapply (j_field_complete _ bytes_strict_total); eassumption.
+    + eapply (j_present_complete TMint); try eassumption. apply (Iset _ _ bytes_strict_total).
+    + eapply j_expected_complete; eassumption.
+    + eapply (j_field_complete _ cert_st); eassumption.
+    + eapply (j_present_complete TCert); try eassumption. apply (Iseq _ _ cert_st).
+    + eapply j_expected_complete; eassumption.
+    + eapply j_locked_complete; eassumption.
+    + eapply (j_field_complete _ racct_ledger_st); eassumption.
+    + eapply (j_present_complete TReward); try eassumption. apply (Iset _ _ racct_ledger_st).
+    + eapply j_expected_complete; eassumption.
+    + eapply j_locked_complete; eassumption.
+    + eapply (j_field_complete _ voter_ledger_st); eassumption.
+    + eapply (j_present_complete TVote); try eassumption. apply (Iset _ _ voter_ledger_st).
+    + eapply j_expected_complete; eassumption.
+    + eapply j_locked_complete; eassumption.
+    + eapply (j_field_complete _ prop_st); eassumption.
+    + eapply (j_present_complete TPropose); try eassumption. apply (Iseq _ _ prop_st).
+    + eapply j_expected_complete; eassumption.
+    + apply j_unique_complete; [apply NoDup_filter, NDR|]. intros r1 r2 H1 H2. apply filter_In in H1 as [H1 _], H2 as [H2 _]. apply U; assumption.
+  - apply andb_true_intro. split.
+    + eapply j_expected_complete; eassumption.
+    + apply j_unique_complete; [apply NoDup_filter, NDR|]. intros r1 r2 H1 H2. apply filter_In in H1 as [H1 _], H2 as [H2 _]. apply U; assumption.
+  - eapply j_locked_complete; eassumption.
+  - rewrite Hc, Hs, Hp. reflexivity.
 Qed.
+Transparent j_field j_present j_expected j_locked j_unique.
